@@ -133,6 +133,16 @@ def _degenerate():
         m = csr.Multiplexer(mm, shadow_overlaps=0)
         return Harness(m, flat_ports(m, *regs), mux=m)
 
+    def mux_wide_regs():
+        # registers wider than the address range they were given (32 bits in one and in two 8-bit words)
+        mm = MemoryMap(addr_width=4, data_width=8)
+        regs = [StubReg(32, "rw"), StubReg(32, "rw"), StubReg(12, "r")]
+        mm.add_resource(regs[0], name=("a",), size=1)
+        mm.add_resource(regs[1], name=("b",), size=2)
+        mm.add_resource(regs[2], name=("c",), size=1)
+        m = csr.Multiplexer(mm)
+        return Harness(m, flat_ports(m, *regs), mux=m)
+
     def csr_dec():
         d = csr.Decoder(addr_width=4, data_width=8)
         return Harness(d, flat_ports(d), dec=d)
@@ -171,7 +181,7 @@ def _degenerate():
         br = WishboneCSRBridge(bus)
         return Harness(br, flat_ports(br, bus), br=br, bus=bus)
 
-    return {"mux-sparse-40-bit-no-sharing": mux_sparse, "mux-empty": mux([]), "mux-write-only": mux(["w", "w"]), "mux-read-only": mux(["r"]), "csr-decoder-empty": csr_dec,
+    return {"mux-registers-wider-than-their-ranges": mux_wide_regs, "mux-sparse-40-bit-no-sharing": mux_sparse, "mux-empty": mux([]), "mux-write-only": mux(["w", "w"]), "mux-read-only": mux(["r"]), "csr-decoder-empty": csr_dec,
             "wishbone-decoder-empty": wb_dec, "arbiter-no-initiators": arb0, "event-monitor-no-events": evmap0,
             "csr-event-monitor-no-events": evmon0, "gpio-one-pin": gpio1, "sram-two-words": sram1,
             "bridge-empty-map": bridge_empty, "wishbone-csr-bridge-minimal": wbcsr_min}
@@ -266,7 +276,7 @@ REFUSALS = ["csr-add-twice", "csr-add-overlap", "csr-add-name-clash", "csr-add-o
             "wb-add-twice", "wb-add-overlap", "wb-add-after-freeze", "map-add-resource-after-freeze",
             "map-window-into-itself-twice"]
 
-DEGENERATE = ["mux-sparse-40-bit-no-sharing", "mux-empty", "mux-write-only", "mux-read-only", "csr-decoder-empty", "wishbone-decoder-empty",
+DEGENERATE = ["mux-registers-wider-than-their-ranges", "mux-sparse-40-bit-no-sharing", "mux-empty", "mux-write-only", "mux-read-only", "csr-decoder-empty", "wishbone-decoder-empty",
               "arbiter-no-initiators", "event-monitor-no-events", "csr-event-monitor-no-events", "gpio-one-pin",
               "sram-two-words", "bridge-empty-map", "wishbone-csr-bridge-minimal"]
 
